@@ -60,6 +60,12 @@ def run(prop, tier, seed, replay):
                 nc = parts["dd"]
                 parts["dd"] = G.make_nc(nc.binning, -nc.counts.counts, nc.sum_weights.sum_weights1,
                                         nc.sum_weights.sum_weights2, nc.auto)
+            if ci % 4 == 2 and case["auto"] and case["N"] >= 2:
+                # autocorrelation containers whose patches were re-labelled through the public indexer (reversed order):
+                # counts sit BELOW the diagonal; they are pair counts like any other
+                for k in [k for k, nc in parts.items() if nc.auto]:
+                    parts[k] = parts[k].patches[::-1]
+                ck.count("hdf:auto-relabelled")
             cf = CorrFunc(parts["dd"], parts.get("dr"), parts.get("rd"), parts.get("rr"))
             path = root / f"cf{ci}.hdf5"
             rep = {"kind": "corrfunc", "mask": mask, "auto": case["auto"], "N": case["N"], "B": case["B"],
